@@ -33,6 +33,28 @@ theorem sumTo_congr (n : Nat) (f g : Nat → K) (h : ∀ l, l < n → f l = g l)
   rw [sumTo_eq, sumTo_eq]
   exact sum_congr rfl (fun l hl => h l (mem_range.mp hl))
 
+/-! the regenerated summands of the five matrix products are plain products (a changed operand
+    order or a transposed operand in the source text makes the leaf underivable) -/
+theorem mmulBy_signalChan (k : Nat) (A B : Mat K) :
+    mmulBy Rsa.Gen.C18.signalChanTerm k A B = mmul k A B := rfl
+theorem mmulBy_signalMix (k : Nat) (A B : Mat K) :
+    mmulBy Rsa.Gen.C18.signalMixTerm k A B = mmul k A B := rfl
+theorem mmulBy_noiseChan (k : Nat) (A B : Mat K) :
+    mmulBy Rsa.Gen.C18.noiseChanTerm k A B = mmul k A B := rfl
+theorem mmulBy_noiseTrial (k : Nat) (A B : Mat K) :
+    mmulBy Rsa.Gen.C18.noiseTrialTerm k A B = mmul k A B := rfl
+theorem mmulBy_design (k : Nat) (A B : Mat K) :
+    mmulBy Rsa.Gen.C18.designTerm k A B = mmul k A B := rfl
+
+/-- entry of `indicator` as regenerated from the masked assignment of `util/matrix.py` -/
+theorem indicatorEntry_eq (a b : Nat) :
+    (Rsa.Gen.C18.indicatorEntry a b : K) = if a = b then 1 else 0 := by
+  simp [Rsa.Gen.C18.indicatorEntry]
+
+/-- row centring as regenerated from `true_U - np.mean(true_U, axis=1, keepdims=True)` -/
+theorem rowCenter_apply (w : Nat) (U : Mat K) (i c : Nat) :
+    rowCenter w U i c = U i c - sumTo w (fun l => U i l) / (w : K) := rfl
+
 theorem centering_apply (n i j : Nat) :
     (centering n : Mat K) i j = (if i = j then 1 else 0) - 1 / (n : K) := by
   simp [centering, Rsa.Gen.C18.centeringEntry]
@@ -121,6 +143,7 @@ theorem indicator_mmul (nCond : Nat) (cv uniq : Nat → Nat) (U : Mat K) (o i c 
     (ho : cv o = uniq i) :
     mmul nCond (indicatorF cv uniq) U o c = U i c := by
   unfold mmul indicatorF
+  simp only [indicatorEntry_eq]
   rw [sumTo_eq, sum_eq_single i]
   · simp [ho]
   · intro l hl hne
@@ -173,18 +196,47 @@ theorem noiseTerm_zero (nObs nCh : Nat) (z : Mat K) (cholC cholT : Option (Mat K
     noiseTerm nObs nCh z 0 cholC cholT = fun _ _ => 0 := by
   funext o c
   cases cholC <;> cases cholT <;>
-    simp [noiseTerm, mmul, sumTo_eq, Rsa.Gen.C18.noiseScale]
+    simp [noiseTerm, mmulBy_noiseChan, mmulBy_noiseTrial, mmul, sumTo_eq, Rsa.Gen.C18.noiseScale]
 
 /-- the noise term is linear in the noise scale -/
 theorem noiseTerm_scale (nObs nCh : Nat) (z : Mat K) (q : K) (cholC cholT : Option (Mat K))
     (o c : Nat) :
     noiseTerm nObs nCh z q cholC cholT o c = q * noiseTerm nObs nCh z 1 cholC cholT o c := by
   cases cholC <;> cases cholT <;>
-    simp only [noiseTerm, mmul, sumTo_eq, Rsa.Gen.C18.noiseScale, mul_one, mul_sum]
+    simp only [noiseTerm, mmulBy_noiseChan, mmulBy_noiseTrial, mmul, sumTo_eq,
+      Rsa.Gen.C18.noiseScale, mul_one, mul_sum]
   · ring
   · refine sum_congr rfl (fun l _ => ?_); ring
   · refine sum_congr rfl (fun l _ => ?_); ring
   · refine sum_congr rfl (fun l _ => sum_congr rfl (fun m _ => ?_)); ring
+
+/-- quadratic form of a zero-sum vector in the double-centred matrix `G = −½ H D H`: the row,
+    column and grand means drop out, only the `D` term survives (no symmetry of `D` needed) -/
+theorem quadform_gram (n : Nat) (d : Nat → K) (D : Mat K) (hd : sumTo n d = 0) :
+    sumTo n (fun a => sumTo n (fun b => d a * d b * gramOfRdm n D a b))
+      = Rsa.Gen.C18.gScale (sumTo n (fun a => sumTo n (fun b => d a * d b * D a b))) := by
+  have h1 : sumTo n (fun a => sumTo n (fun b => d a * d b * gramOfRdm n D a b))
+      = sumTo n (fun a => sumTo n (fun b => d a * d b * Rsa.Gen.C18.gScale
+          (D a b - sumTo n (fun k => D k b) / (n : K) - sumTo n (fun l => D a l) / (n : K)
+            + sumTo n (fun l => sumTo n (fun k => D k l)) / (n : K) / (n : K)))) := by
+    apply sumTo_congr; intro a ha
+    apply sumTo_congr; intro b hb
+    unfold gramOfRdm
+    rw [hdh_entry n a b ha hb]
+  rw [h1]
+  simp only [Rsa.Gen.C18.gScale]
+  push_cast
+  rw [sumTo_eq] at hd
+  generalize hT : sumTo n (fun l => sumTo n (fun k => D k l)) = T
+  simp only [sumTo_eq]
+  have e : ∀ a b, d a * d b * (-(1 / 2) * (D a b - (∑ k ∈ range n, D k b) / (n : K)
+        - (∑ l ∈ range n, D a l) / (n : K) + T / (n : K) / (n : K)))
+      = -(1 / 2) * (d a * d b * D a b) + 1 / 2 / (n : K) * (d a * (d b * ∑ k ∈ range n, D k b))
+        + 1 / 2 / (n : K) * (d a * (∑ l ∈ range n, D a l) * d b)
+        - 1 / 2 * T / (n : K) / (n : K) * (d a * d b) := by
+    intro a b; ring
+  simp only [e, sum_add_distrib, sum_sub_distrib, ← mul_sum, ← sum_mul, hd]
+  ring
 
 end ring
 /-! ### `np.unique` on natural-number labels -/
@@ -234,7 +286,8 @@ theorem uniqueSorted_occurs (l : List Nat) (i : Nat) (hi : i < (uniqueSorted l).
   exact ⟨o, ho, by rw [List.getD_eq_getElem _ _ ho, List.getD_eq_getElem _ _ hi, he]⟩
 
 /-- the list form of `indicator` agrees with the function form on the observations -/
-theorem indicator_eq_indicatorF {K : Type} [Zero K] [One K] (cv : List Nat) (o i : Nat)
+theorem indicator_eq_indicatorF {K : Type} [Field K] [LinearOrder K] [IsStrictOrderedRing K]
+    (cv : List Nat) (o i : Nat)
     (ho : o < cv.length) (hi : i < (uniqueSorted cv).length) :
     (indicator cv : Mat K) o i
       = indicatorF (fun o => cv.getD o 0) (fun i => (uniqueSorted cv).getD i 0) o i := by
